@@ -25,7 +25,8 @@ cRetain == { <<0,1,0,1,0,1,0,1,0,1,0,1,0,1,0,1,0,1,0,1,0,1>> }
 cRetainP == cRetain \cup { <<1,1,1,1,1,1,1,1,1,1,1,1,1,1,1,1,1,1,1,1,1,1>>, <<0>>, <<1,0,2>>, <<2>>, <<0,0,0,1,2>> }
 cItems == { << <<98>>, E2 >> }
 \* (the last one: an item that is itself longer than the inline limit - for strs / Display pieces only)
-cItems2 == { << <<98>>, E2 >>, << G4, G4, G4, G4, <<120>> >>, <<>>, << A17, <<98>> >> }
+\* (and one made mostly of EMPTY pieces: more pieces than bytes - a piece count is not a byte count)
+cItems2 == { << <<>>, <<>>, <<>>, <<98>>, <<>>, <<>> >>, << <<98>>, E2 >>, << G4, G4, G4, G4, <<120>> >>, <<>>, << A17, <<98>> >> }
 cOpsCore == {"new","from_str","from_static","with_capacity","clone","drop","reserve","shrink_to",
              "push_str","pop","clear","truncate","remove","insert_str"}
 cOpsAll == cOpsCore \cup {"from_char","clone_from","retain","extend","collect","display","clone_ovf"}
